@@ -142,7 +142,7 @@ def plant(rng, host, what):
             for a in ('provides', 'endpoint_provides', 'render_provides'):
                 m[a] = [x for x in m[a] if x != 'zz']
         f = mw[phase]
-        variant = rng.pick(['dropped', 'second', 'renamed', 'no-params'])
+        variant = rng.pick(['dropped', 'second', 'renamed', 'no-params', 'near-miss', 'near-miss'])
         rest = [p for p in f['params'] if p[0] != 'next']
         if variant == 'no-params':
             f['params'] = []           # a function that takes nothing at all
@@ -152,6 +152,10 @@ def plant(rng, host, what):
             f['params'] = [rest[0], ['next', rest[0][1] if rest[0][1] in ('def',) else 'req']] + rest[1:]
             if rest[0][1] in ('def', 'kwdef', 'kwreq'):
                 f['params'] = [[rest[0][0], 'req'], ['next', 'req']] + rest[1:]
+        elif variant == 'near-miss':
+            # a first parameter whose name merely resembles 'next' and that can be supplied (it has a default): only the
+            # first-parameter rule stands between this function and a chain that never receives a next
+            f['params'] = [[rng.pick(['next_hop', '_next', 'nextpage', 'next_', 'nnext', 'next2', 'Next', 'NEXT']), 'def']] + rest
         else:
             f['params'] = [['nxt', 'req']] + rest
         label += ':%s:%s' % (phase, variant)
